@@ -115,6 +115,7 @@ theorem pointwise_step_dense [CommRing R] [Conj R] [DecidableEq R] (hc0 : Conj.c
   | broadcast _ _ _ => cases hp
   | applyMask _ _ _ => cases hp
   | diag _ => cases hp
+  | fuse _ _ => cases hp
 
 /-- **whole programs**: dense entries of all produced values = the program run on the dense entries of the inputs -/
 theorem pointwise_prog_dense [CommRing R] [Conj R] [DecidableEq R] (hc0 : Conj.conj (0 : R) = 0)
